@@ -1,1 +1,885 @@
-//! C39: not implemented yet.
+//! C39 — configuration loading never crashes and rejects unsafe step thresholds.
+//!
+//! Engine E-IN: TOML documents generated exhaustively from a grammar, loaded through the same
+//! calls the daemon and `ntp-ctl validate` make (`toml::from_str::<Config>` = body of the private
+//! `Config::from_file`; for the threshold family additionally `Config::from_args` on a real
+//! file), followed by `Config::check`, all under `common::catch`.
+//!
+//! Families
+//!  F1 every numeric (and a few non-numeric) key of the config tree x a value alphabet of 37
+//!     TOML literals (NaNs, infinities, negatives, -0.0, huge, 2^63, strings, tables, arrays ...)
+//!  F2 the two step thresholds x { single number, {forward}, {backward}, {forward, backward}
+//!     (full square of the alphabet), [table header] form }
+//!  F3 unknown keys in every section / inline table; duplicate keys and sections
+//!  F4 `[[source]]` sections: 10 modes x every subset (<= 3 quick, <= 5 thorough) of the union of
+//!     all source fields; address / certificate alphabets
+//!  F5 well-formed documents written from the manual (must load: vacuity guard for "accepted")
+//!  F6 structural confusion (scalars for tables, tables for arrays, ...) and deep nesting
+//!
+//! Oracle (statement): never a panic; a document whose step threshold (either form) is NaN or
+//! negative is not accepted; every `StepThreshold` component of an accepted configuration is
+//! `None` (= infinite) or >= 0.
+use std::collections::BTreeMap;
+use std::sync::Mutex;
+
+use ntp_proto::NtpDuration;
+
+use super::common::{self, Ctx};
+use crate::daemon::config::Config;
+
+#[derive(Clone, Copy, PartialEq, Eq, Debug)]
+enum VClass {
+    Nan,
+    Neg,
+    Other,
+}
+use VClass::{Nan, Neg, Other};
+
+/// The value alphabet: TOML literal + what it means for a threshold.
+const VALUES: &[(&str, VClass)] = &[
+    ("nan", Nan),
+    ("+nan", Nan),
+    ("-nan", Nan),
+    ("inf", Other),
+    ("+inf", Other),
+    ("-inf", Neg),
+    ("-1", Neg),
+    ("-1.5", Neg),
+    ("-5", Neg),
+    ("-1e300", Neg),
+    ("-1e-320", Neg),
+    ("-9223372036854775808", Neg),
+    ("-0.0", Other),
+    ("-0", Other),
+    ("0", Other),
+    ("0.0", Other),
+    ("1", Other),
+    ("1.5", Other),
+    ("1e300", Other),
+    ("1e-320", Other),
+    ("255", Other),
+    ("256", Other),
+    ("65536", Other),
+    ("4294967296", Other),
+    ("9223372036854775807", Other),
+    ("9223372036854775808", Other),  // 2^63: not a TOML integer
+    ("18446744073709551615", Other), // 2^64-1
+    ("0x7f", Other),
+    ("1_000", Other),
+    ("true", Other),
+    ("\"inf\"", Other),
+    ("\"-5\"", Other),
+    ("\"x\"", Other),
+    ("\"\"", Other),
+    ("{}", Other),
+    ("[]", Other),
+    ("2024-01-01", Other),
+];
+
+const BASE: &str = "[[source]]\nmode = \"server\"\naddress = \"example.com\"\n";
+
+const ALGO_KEYS: &[&str] = &[
+    "precision-low-probability",
+    "precision-high-probability",
+    "precision-hysteresis",
+    "precision-minimum-weight",
+    "poll-interval-low-weight",
+    "poll-interval-high-weight",
+    "poll-interval-hysteresis",
+    "poll-interval-step-threshold",
+    "delay-outlier-threshold",
+    "initial-wander",
+    "initial-frequency-uncertainty",
+    "maximum-source-uncertainty",
+    "range-statistical-weight",
+    "range-delay-weight",
+    "steer-offset-threshold",
+    "steer-offset-leftover",
+    "steer-frequency-threshold",
+    "steer-frequency-leftover",
+    "step-threshold",
+    "slew-maximum-frequency-offset",
+    "slew-minimum-duration",
+    "maximum-frequency-steer",
+    "ignore-server-dispersion",
+    "meddling-threshold",
+];
+
+const KE: &str = "[[nts-ke-server]]\nlisten = \"[::]:4460\"\ncertificate-chain-path = \"/nonexistent/chain.pem\"\nprivate-key-path = \"/nonexistent/key.pem\"\n";
+
+/// F1 slots: (name, template with `{V}`; `!` prefix = do not prepend BASE).
+fn slots() -> Vec<(String, String)> {
+    let mut s: Vec<(String, String)> = Vec::new();
+    let mut add = |name: &str, t: &str| s.push((name.to_string(), t.to_string()));
+    for k in ["minimum-agreeing-sources", "local-stratum", "accumulated-step-panic-threshold", "reference-id", "warn-on-jump"] {
+        add(&format!("synchronization.{k}"), &format!("[synchronization]\n{k} = {{V}}\n"));
+    }
+    for k in ALGO_KEYS {
+        add(&format!("synchronization.algorithm.{k}"), &format!("[synchronization.algorithm]\n{k} = {{V}}\n"));
+    }
+    add("source-defaults.initial-poll-interval", "[source-defaults]\ninitial-poll-interval = {V}\n");
+    add("source-defaults.poll-interval-limits.min", "[source-defaults]\npoll-interval-limits = { min = {V}, max = 10 }\n");
+    add("source-defaults.poll-interval-limits.max", "[source-defaults]\npoll-interval-limits = { min = 4, max = {V} }\n");
+    add("source-defaults.poll-interval-limits.min-only", "[source-defaults]\npoll-interval-limits = { min = {V} }\n");
+    add("source-defaults.poll-interval-limits", "[source-defaults]\npoll-interval-limits = {V}\n");
+    for k in ["observation-permissions", "metrics-exporter-listen", "log-level", "ansi-colors", "observation-path"] {
+        add(&format!("observability.{k}"), &format!("[observability]\n{k} = {{V}}\n"));
+    }
+    for k in ["stale-key-count", "key-rotation-interval", "key-storage-path"] {
+        add(&format!("keyset.{k}"), &format!("[keyset]\n{k} = {{V}}\n"));
+    }
+    for k in ["priority_1", "priority_2", "ptp_timescale", "identity", "clock_quality", "time_traceable"] {
+        add(&format!("csptp.{k}"), &format!("[csptp]\n{k} = {{V}}\n"));
+    }
+    add("csptp.identity[0]", "[csptp]\nidentity = [{V}, 0, 0, 0, 0, 0, 0, 0]\n");
+    add("csptp.clock_quality.clock_class", "[csptp]\nclock_quality = { clock_class = {V}, clock_accuracy = \"PS1\", offset_scaled_log_variance = 1 }\n");
+    add("csptp.clock_quality.offset_scaled_log_variance", "[csptp]\nclock_quality = { clock_class = 6, clock_accuracy = \"PS1\", offset_scaled_log_variance = {V} }\n");
+    add("csptp.clock_quality.clock_accuracy", "[csptp]\nclock_quality = { clock_class = 6, clock_accuracy = {V}, offset_scaled_log_variance = 1 }\n");
+    add("clock.timestamp-mode", "[clock]\ntimestamp-mode = {V}\n");
+    // sources
+    for k in ["ntp-version", "initial-poll-interval", "address", "mode"] {
+        add(&format!("source.server.{k}"), &format!("![[source]]\nmode = \"server\"\naddress = \"example.com\"\n{k} = {{V}}\n"));
+    }
+    add("source.server.poll-interval-limits.min", "![[source]]\nmode = \"server\"\naddress = \"example.com\"\npoll-interval-limits = { min = {V} }\n");
+    add("source.server.poll-interval-limits.max", "![[source]]\nmode = \"server\"\naddress = \"example.com\"\npoll-interval-limits = { max = {V} }\n");
+    for k in ["count", "ntp-version"] {
+        add(&format!("source.pool.{k}"), &format!("![[source]]\nmode = \"pool\"\naddress = \"pool.example.com\"\n{k} = {{V}}\n"));
+    }
+    add("source.pool.ignore[0]", "![[source]]\nmode = \"pool\"\naddress = \"pool.example.com\"\nignore = [{V}]\n");
+    add("source.pool.count-x3", "![[source]]\nmode = \"pool\"\naddress = \"a.example.com\"\ncount = {V}\n[[source]]\nmode = \"pool\"\naddress = \"b.example.com\"\ncount = {V}\n[[source]]\nmode = \"pool\"\naddress = \"c.example.com\"\ncount = {V}\n");
+    for k in ["ntp-version", "enable-srv-resolution", "certificate-authority"] {
+        add(&format!("source.nts.{k}"), &format!("![[source]]\nmode = \"nts\"\naddress = \"nts.example.com\"\n{k} = {{V}}\n"));
+    }
+    for k in ["count", "ntp-version"] {
+        add(&format!("source.nts-pool.{k}"), &format!("![[source]]\nmode = \"nts-pool\"\naddress = \"nts.example.com\"\n{k} = {{V}}\n"));
+    }
+    for k in ["precision", "accuracy", "measurement_noise_estimate", "path"] {
+        let rest = match k {
+            "precision" | "measurement_noise_estimate" => "path = \"/run/x.sock\"\n",
+            "path" => "precision = 1e-3\n",
+            _ => "path = \"/run/x.sock\"\nprecision = 1e-3\n",
+        };
+        add(&format!("source.sock.{k}"), &format!("![[source]]\nmode = \"sock\"\n{rest}{k} = {{V}}\n"));
+    }
+    for k in ["precision", "accuracy", "period", "measurement_noise_estimate"] {
+        let rest = match k {
+            "precision" | "measurement_noise_estimate" => "path = \"/dev/pps0\"\n",
+            _ => "path = \"/dev/pps0\"\nprecision = 1e-3\n",
+        };
+        add(&format!("source.pps.{k}"), &format!("![[source]]\nmode = \"pps\"\n{rest}{k} = {{V}}\n"));
+    }
+    for k in ["domain", "poll_interval", "response_interval", "address"] {
+        let rest = if k == "address" { "" } else { "address = \"ptp.example.com\"\n" };
+        add(&format!("source.csptp.{k}"), &format!("![[source]]\nmode = \"csptp\"\n{rest}{k} = {{V}}\n"));
+    }
+    // servers
+    for k in ["rate-limiting-cache-size", "rate-limiting-cutoff-ms", "accept-ntp-versions", "require-nts", "listen", "denylist", "allowlist"] {
+        let rest = if k == "listen" { "" } else { "listen = \"[::]:123\"\n" };
+        add(&format!("server.{k}"), &format!("[[server]]\n{rest}{k} = {{V}}\n"));
+    }
+    add("server.accept-ntp-versions[0]", "[[server]]\nlisten = \"[::]:123\"\naccept-ntp-versions = [{V}]\n");
+    add("server.denylist.filter[0]", "[[server]]\nlisten = \"[::]:123\"\ndenylist = { filter = [{V}], action = \"deny\" }\n");
+    for k in ["key-exchange-timeout-ms", "concurrent-connections", "longlived-connections", "ntp-port", "accept-ntp-versions", "ntp-server"] {
+        add(&format!("nts-ke-server.{k}"), &format!("{KE}{k} = {{V}}\n"));
+    }
+    add("nts-ke-server.accept-ntp-versions[0]", &format!("{KE}accept-ntp-versions = [{{V}}]\n"));
+    add("csptp-server.interface", "[[csptp-server]]\ninterface = {V}\n");
+    for k in ["source", "server", "synchronization", "source-defaults", "observability", "keyset", "csptp", "nts-ke-server", "csptp-server", "bogus"] {
+        add(&format!("top.{k}"), &format!("!{k} = {{V}}\n"));
+    }
+    s
+}
+
+fn render(template: &str, v: &str) -> String {
+    let (body, base) = match template.strip_prefix('!') {
+        Some(b) => (b, ""),
+        None => (template, BASE),
+    };
+    format!("{base}{}", body.replace("{V}", v))
+}
+
+const THRESHOLD_KEYS: [&str; 2] = ["single-step-panic-threshold", "startup-step-panic-threshold"];
+
+#[derive(Clone, Debug)]
+struct ThrInput {
+    key: &'static str,
+    form: &'static str, // "single" | "per-direction"
+    dir: &'static str,  // "both" | "forward" | "backward"
+    class: VClass,
+    lit: &'static str,
+}
+
+#[derive(Clone, Debug)]
+struct Doc {
+    family: &'static str,
+    slot: String,
+    text: String,
+    thr: Vec<ThrInput>,
+    /// F1: the literal substituted into the slot
+    val: Option<(&'static str, VClass)>,
+}
+
+fn f1_docs() -> Vec<Doc> {
+    let mut out = Vec::new();
+    for (name, t) in slots() {
+        for (v, c) in VALUES {
+            out.push(Doc { family: "F1", slot: name.clone(), text: render(&t, v), thr: vec![], val: Some((*v, *c)) });
+        }
+    }
+    out
+}
+
+fn f2_docs() -> Vec<Doc> {
+    let mut out = Vec::new();
+    for key in THRESHOLD_KEYS {
+        for (v, c) in VALUES {
+            let ti = |form, dir| ThrInput { key, form, dir, class: *c, lit: v };
+            out.push(Doc {
+                family: "F2",
+                slot: format!("{key}=V"),
+                text: format!("{BASE}[synchronization]\n{key} = {v}\n"),
+                thr: vec![ti("single", "both")],
+                val: None,
+            });
+            for dir in ["forward", "backward"] {
+                out.push(Doc {
+                    family: "F2",
+                    slot: format!("{key}={{{dir}}}"),
+                    text: format!("{BASE}[synchronization]\n{key} = {{ {dir} = {v} }}\n"),
+                    thr: vec![ti("per-direction", dir)],
+                    val: None,
+                });
+                out.push(Doc {
+                    family: "F2",
+                    slot: format!("[{key}].{dir}"),
+                    text: format!("{BASE}[synchronization.{key}]\n{dir} = {v}\n"),
+                    thr: vec![ti("per-direction", dir)],
+                    val: None,
+                });
+                out.push(Doc {
+                    family: "F2",
+                    slot: format!("{key}.{dir} dotted"),
+                    text: format!("{BASE}[synchronization]\n{key}.{dir} = {v}\n"),
+                    thr: vec![ti("per-direction", dir)],
+                    val: None,
+                });
+            }
+            for (w, cw) in VALUES {
+                out.push(Doc {
+                    family: "F2",
+                    slot: format!("{key}={{forward,backward}}"),
+                    text: format!("{BASE}[synchronization]\n{key} = {{ forward = {v}, backward = {w} }}\n"),
+                    thr: vec![
+                        ti("per-direction", "forward"),
+                        ThrInput { key, form: "per-direction", dir: "backward", class: *cw, lit: w },
+                    ],
+                    val: None,
+                });
+            }
+        }
+    }
+    // both thresholds at once, per-direction, over the NaN/negative part of the alphabet
+    for (v, c) in VALUES.iter().filter(|(_, c)| *c != Other) {
+        out.push(Doc {
+            family: "F2",
+            slot: "both thresholds".to_string(),
+            text: format!(
+                "{BASE}[synchronization]\nsingle-step-panic-threshold = {{ forward = 10, backward = {v} }}\nstartup-step-panic-threshold = {{ forward = {v}, backward = 10 }}\n"
+            ),
+            thr: vec![
+                ThrInput { key: THRESHOLD_KEYS[0], form: "per-direction", dir: "backward", class: *c, lit: v },
+                ThrInput { key: THRESHOLD_KEYS[1], form: "per-direction", dir: "forward", class: *c, lit: v },
+            ],
+            val: None,
+        });
+    }
+    out
+}
+
+fn f3_docs() -> Vec<Doc> {
+    let mut out = Vec::new();
+    let mut add = |slot: &str, text: String| out.push(Doc { family: "F3", slot: slot.to_string(), text, thr: vec![], val: None });
+    // unknown keys
+    add("unknown:top", format!("{BASE}bogus-key = 1\n"));
+    add("unknown:top-table", format!("{BASE}[bogus-section]\nx = 1\n"));
+    for sec in ["synchronization", "synchronization.algorithm", "source-defaults", "observability", "keyset", "csptp", "clock"] {
+        add(&format!("unknown:[{sec}]"), format!("{BASE}[{sec}]\nbogus-key = 1\n"));
+    }
+    for (mode, rest) in [
+        ("server", "address = \"example.com\"\n"),
+        ("nts", "address = \"example.com\"\n"),
+        ("pool", "address = \"example.com\"\n"),
+        ("nts-pool", "address = \"example.com\"\n"),
+        ("sock", "path = \"/run/x.sock\"\nprecision = 1e-3\n"),
+        ("pps", "path = \"/dev/pps0\"\nprecision = 1e-3\n"),
+        ("csptp", "address = \"example.com\"\n"),
+    ] {
+        add(&format!("unknown:[[source]] {mode}"), format!("[[source]]\nmode = \"{mode}\"\n{rest}bogus-key = 1\n"));
+    }
+    add("unknown:[[server]]", format!("{BASE}[[server]]\nlisten = \"[::]:123\"\nbogus-key = 1\n"));
+    add("unknown:[[nts-ke-server]]", format!("{BASE}{KE}bogus-key = 1\n"));
+    add("unknown:[[csptp-server]]", format!("{BASE}[[csptp-server]]\ninterface = \"any\"\nbogus-key = 1\n"));
+    add("unknown:poll-interval-limits", format!("{BASE}[source-defaults]\npoll-interval-limits = {{ min = 4, max = 10, bogus = 1 }}\n"));
+    for key in THRESHOLD_KEYS {
+        add(&format!("unknown:{key}"), format!("{BASE}[synchronization]\n{key} = {{ forward = 1, backward = 1, bogus = 1 }}\n"));
+        add(&format!("unknown-only:{key}"), format!("{BASE}[synchronization]\n{key} = {{ bogus = 1 }}\n"));
+        add(&format!("empty-map:{key}"), format!("{BASE}[synchronization]\n{key} = {{ }}\n"));
+    }
+    add("unknown:denylist", format!("{BASE}[[server]]\nlisten = \"[::]:123\"\ndenylist = {{ filter = [], action = \"deny\", bogus = 1 }}\n"));
+    add("unknown:clock_quality", format!("{BASE}[csptp]\nclock_quality = {{ clock_class = 6, clock_accuracy = \"PS1\", offset_scaled_log_variance = 1, bogus = 1 }}\n"));
+    // duplicates
+    for (sec, key, v) in [
+        ("synchronization", "minimum-agreeing-sources", "1"),
+        ("synchronization", "single-step-panic-threshold", "1"),
+        ("synchronization.algorithm", "initial-wander", "1e-7"),
+        ("source-defaults", "initial-poll-interval", "4"),
+        ("observability", "log-level", "\"info\""),
+        ("keyset", "stale-key-count", "1"),
+        ("csptp", "priority_1", "1"),
+    ] {
+        add(&format!("dup-key:[{sec}].{key}"), format!("{BASE}[{sec}]\n{key} = {v}\n{key} = {v}\n"));
+        add(&format!("dup-section:[{sec}]"), format!("{BASE}[{sec}]\n{key} = {v}\n[{sec}]\n{key} = {v}\n"));
+    }
+    for key in THRESHOLD_KEYS {
+        add(&format!("dup-dir:{key}"), format!("{BASE}[synchronization]\n{key} = {{ forward = 1, forward = 2 }}\n"));
+        add(&format!("dup-dir-dotted:{key}"), format!("{BASE}[synchronization]\n{key}.forward = 1\n{key}.forward = 2\n"));
+        add(&format!("dup-forms:{key}"), format!("{BASE}[synchronization]\n{key} = 1\n[synchronization.{key}]\nforward = 1\n"));
+    }
+    add("dup:source mode", "[[source]]\nmode = \"server\"\nmode = \"pool\"\naddress = \"example.com\"\n".to_string());
+    add("dup:source address", "[[source]]\nmode = \"server\"\naddress = \"example.com\"\naddress = \"example.org\"\n".to_string());
+    add("dup:sock precision+noise", "[[source]]\nmode = \"sock\"\npath = \"/run/x.sock\"\nprecision = 1e-3\nmeasurement_noise_estimate = 1e-6\n".to_string());
+    add("dup:sock noise+precision", "[[source]]\nmode = \"sock\"\npath = \"/run/x.sock\"\nmeasurement_noise_estimate = 1e-6\nprecision = 1e-3\n".to_string());
+    add("dup:pps precision+noise", "[[source]]\nmode = \"pps\"\npath = \"/dev/pps0\"\nprecision = 1e-3\nmeasurement_noise_estimate = 1e-6\n".to_string());
+    add("dup:source then scalar", format!("{BASE}source = 1\n"));
+    add("dup:flatten poll-interval-limits", "[[source]]\nmode = \"server\"\naddress = \"example.com\"\npoll-interval-limits = { min = 4 }\npoll-interval-limits = { max = 4 }\n".to_string());
+    out
+}
+
+const SOURCE_FIELDS: &[&str] = &[
+    "address = \"example.com\"",
+    "path = \"/dev/null\"",
+    "precision = 1e-3",
+    "accuracy = 1e-3",
+    "period = 1.0",
+    "measurement_noise_estimate = 1e-6",
+    "count = 4",
+    "ntp-version = 4",
+    "certificate-authority = \"/nonexistent/ca.pem\"",
+    "ignore = [\"127.0.0.1\"]",
+    "enable-srv-resolution = true",
+    "domain = 128",
+    "poll_interval = 1.0",
+    "response_interval = 5.0",
+    "poll-interval-limits = { min = 4, max = 10 }",
+    "initial-poll-interval = 4",
+    "bogus = 1",
+];
+
+const SOURCE_MODES: &[&str] = &[
+    "mode = \"server\"\n",
+    "mode = \"nts\"\n",
+    "mode = \"pool\"\n",
+    "mode = \"nts-pool\"\n",
+    "mode = \"sock\"\n",
+    "mode = \"pps\"\n",
+    "mode = \"csptp\"\n",
+    "mode = \"bogus\"\n",
+    "",
+    "mode = 1\n",
+];
+
+fn subsets_upto(n: usize, k: usize) -> Vec<Vec<usize>> {
+    fn rec(start: usize, n: usize, left: usize, cur: &mut Vec<usize>, out: &mut Vec<Vec<usize>>) {
+        out.push(cur.clone());
+        if left == 0 {
+            return;
+        }
+        for i in start..n {
+            cur.push(i);
+            rec(i + 1, n, left - 1, cur, out);
+            cur.pop();
+        }
+    }
+    let mut out = Vec::new();
+    rec(0, n, k, &mut Vec::new(), &mut out);
+    out
+}
+
+fn f4_docs(max_subset: usize) -> Vec<Doc> {
+    let mut out = Vec::new();
+    for (mi, mode) in SOURCE_MODES.iter().enumerate() {
+        for sub in subsets_upto(SOURCE_FIELDS.len(), max_subset) {
+            let mut text = format!("[[source]]\n{mode}");
+            for i in &sub {
+                text.push_str(SOURCE_FIELDS[*i]);
+                text.push('\n');
+            }
+            out.push(Doc { family: "F4", slot: format!("mode#{mi} fields{sub:?}"), text, thr: vec![], val: None });
+        }
+    }
+    let addresses = [
+        "example.com", "example.com:123", "example.com:0", "example.com:65535", "example.com:65536", "example.com:-1",
+        "example.com:", ":123", "", ":", "::", "::1", "[::1]", "[::1]:123", "[::1]:99999", ":invalid:ipv6:123", "1.2.3.4",
+        "1.2.3.4:5", "a:b:c", "\u{e9}xample.com", "ex ample.com", "example.com:12 3",
+    ];
+    for mode in ["server", "nts", "pool", "nts-pool", "csptp"] {
+        for a in addresses {
+            out.push(Doc {
+                family: "F4",
+                slot: format!("address:{mode}"),
+                text: format!("[[source]]\nmode = \"{mode}\"\naddress = \"{a}\"\n"),
+                thr: vec![],
+                val: None,
+            });
+        }
+    }
+    for mode in ["nts", "nts-pool"] {
+        for ca in ["/nonexistent/ca.pem", "/dev/null", "/", "", "/proc/self/cmdline", "/etc/hostname"] {
+            out.push(Doc {
+                family: "F4",
+                slot: format!("certificate-authority:{mode}"),
+                text: format!("[[source]]\nmode = \"{mode}\"\naddress = \"nts.example.com\"\ncertificate-authority = \"{ca}\"\n"),
+                thr: vec![],
+                val: None,
+            });
+        }
+    }
+    out
+}
+
+/// F5: documents written from the manual; all must load.
+const GOOD_DOCS: &[&str] = &[
+    "",
+    "[[source]]\nmode = \"server\"\naddress = \"example.com\"\n",
+    "[observability]\nlog-level = \"info\"\nobservation-path = \"/var/run/ntpd-rs/observe\"\n[[source]]\nmode = \"pool\"\naddress = \"ntpd-rs.pool.ntp.org\"\ncount = 4\n[synchronization]\nsingle-step-panic-threshold = 1800\nstartup-step-panic-threshold = { forward=\"inf\", backward = 1800 }\n",
+    "[[source]]\nmode = \"pool\"\naddress = \"ntpd-rs.pool.ntp.org\"\ncount = 4\n[[server]]\nlisten = \"[::]:123\"\n[synchronization]\nsingle-step-panic-threshold = 1800\nstartup-step-panic-threshold = { forward=\"inf\", backward = 1800 }\n[keyset]\nkey-storage-path=\"/path/to/store/key/material\"\n",
+    "[[source]]\nmode = \"nts\"\naddress = \"time.example.com\"\n[[source]]\nmode = \"nts-pool\"\naddress = \"pool.example.com\"\ncount = 2\n[[source]]\nmode = \"sock\"\npath = \"/run/chrony.ttyS0.sock\"\nprecision = 1e-3\n[[source]]\nmode = \"pps\"\npath = \"/dev/pps0\"\nprecision = 1e-7\n",
+    "[synchronization]\nsingle-step-panic-threshold = \"inf\"\nstartup-step-panic-threshold = \"inf\"\naccumulated-step-panic-threshold = 1800\nminimum-agreeing-sources = 1\nlocal-stratum = 1\nreference-id = \"GPS\"\nwarn-on-jump = false\n[synchronization.algorithm]\ninitial-wander = 1e-7\nstep-threshold = 0.5\n",
+    "[synchronization]\nsingle-step-panic-threshold = { forward = 10, backward = 20 }\nstartup-step-panic-threshold = { forward = 0, backward = 0.5 }\n",
+    "[synchronization]\nsingle-step-panic-threshold = { forward = \"inf\" }\nstartup-step-panic-threshold = { backward = \"inf\" }\n",
+    "[source-defaults]\npoll-interval-limits = { min = 5, max = 9 }\ninitial-poll-interval = 5\n[observability]\nobservation-permissions = 0o567\nmetrics-exporter-listen = \"127.0.0.1:9975\"\nansi-colors = false\n",
+    "[[server]]\nlisten = \"0.0.0.0:123\"\nrate-limiting-cache-size = 32\nrate-limiting-cutoff-ms = 1000\nrequire-nts = \"deny\"\naccept-ntp-versions = [3, 4, 5]\n[server.denylist]\nfilter = [\"192.168.33.34/24\"]\naction = \"deny\"\n",
+    "[[nts-ke-server]]\nlisten = \"[::]:4460\"\ncertificate-chain-path = \"/etc/ssl/chain.pem\"\nprivate-key-path = \"/etc/ssl/key.pem\"\nkey-exchange-timeout-ms = 500\nntp-port = 123\n[[server]]\nlisten = \"[::]:123\"\n",
+    "[[source]]\nmode = \"csptp\"\naddress = \"ptp.example.com\"\ndomain = 128\npoll_interval = 1.0\n[[csptp-server]]\ninterface = \"any\"\n[csptp]\npriority_1 = 100\n",
+];
+
+fn f5_docs() -> Vec<Doc> {
+    GOOD_DOCS
+        .iter()
+        .enumerate()
+        .map(|(i, t)| Doc { family: "F5", slot: format!("good#{i}"), text: t.to_string(), thr: vec![], val: None })
+        .collect()
+}
+
+fn deep(kind: &str, depth: usize) -> String {
+    match kind {
+        "array" => format!("x = {}1{}\n", "[".repeat(depth), "]".repeat(depth)),
+        "inline-table" => format!("x = {}1{}\n", "{ a = ".repeat(depth), " }".repeat(depth)),
+        "dotted" => format!("{} = 1\n", vec!["a"; depth.max(1)].join(".")),
+        "header" => format!("[{}]\nx = 1\n", vec!["a"; depth.max(1)].join(".")),
+        "threshold-array" => format!(
+            "[synchronization]\nsingle-step-panic-threshold = {{ forward = {}1{} }}\n",
+            "[".repeat(depth),
+            "]".repeat(depth)
+        ),
+        "sources" => "[[source]]\nmode = \"server\"\naddress = \"example.com\"\n".repeat(depth),
+        _ => unreachable!(),
+    }
+}
+
+const DEEP_KINDS: [&str; 6] = ["array", "inline-table", "dotted", "header", "threshold-array", "sources"];
+
+fn f6_docs(thorough: bool) -> Vec<Doc> {
+    let mut out = Vec::new();
+    let mut add = |slot: &str, text: String| out.push(Doc { family: "F6", slot: slot.to_string(), text, thr: vec![], val: None });
+    for t in [
+        "[source]\nmode = \"server\"\naddress = \"example.com\"\n",
+        "[[synchronization]]\nminimum-agreeing-sources = 1\n",
+        "[[observability]]\nlog-level = \"info\"\n",
+        "[[source]]\n",
+        "[[server]]\n",
+        "[[nts-ke-server]]\n",
+        "[[csptp-server]]\n",
+        "[synchronization.algorithm.x]\ny = 1\n",
+        "[synchronization.single-step-panic-threshold.forward]\nx = 1\n",
+        "[[synchronization.single-step-panic-threshold]]\nforward = 1\n",
+        "synchronization.single-step-panic-threshold = [1, 2]\n",
+        "source = [1]\n",
+        "source = [[]]\n",
+        "source = [{}]\n",
+        "source = [{ mode = \"server\" }]\n",
+        "source = [{ mode = \"server\", address = \"example.com\" }]\n",
+        "\u{feff}[[source]]\nmode = \"server\"\naddress = \"example.com\"\n",
+        "[[source]]\r\nmode = \"server\"\r\naddress = \"example.com\"\r\n",
+        "[[source]]\nmode = \"server\"\naddress = \"example.com\"",
+        "[[source]\n",
+        "= 1\n",
+        "\"\" = 1\n",
+        "x = \"\\ud800\"\n",
+        "x = '''\n",
+        "\0",
+        "[synchronization]\nsingle-step-panic-threshold = 1e400\n",
+        "[synchronization]\nsingle-step-panic-threshold = { forward = 1e400 }\n",
+        "[synchronization]\nsingle-step-panic-threshold = { forward = -1e400 }\n",
+        "[synchronization]\nsingle-step-panic-threshold = 00\n",
+        "[synchronization]\nsingle-step-panic-threshold = 1.\n",
+        "[synchronization]\nsingle-step-panic-threshold = .5\n",
+    ] {
+        add("structure", t.to_string());
+    }
+    let depths: &[usize] = if thorough { &[1, 10, 64, 127, 128, 129, 1000, 10_000, 100_000] } else { &[1, 10, 127, 128, 129, 1000, 10_000] };
+    for kind in DEEP_KINDS {
+        for d in depths {
+            if kind == "sources" && *d > 10_000 {
+                continue;
+            }
+            add(&format!("gen:deep:{kind}:{d}"), deep(kind, *d));
+        }
+    }
+    out
+}
+
+// --- evaluation ---------------------------------------------------------------------------
+
+#[derive(Default)]
+struct Observations {
+    nan_accepted: BTreeMap<String, Vec<String>>,
+    neg_accepted: BTreeMap<String, Vec<String>>,
+    unknown_accepted: Vec<String>,
+    acc_threshold: Vec<String>,
+    good_rejected: Vec<String>,
+}
+
+/// `gen:deep:<kind>:<depth>` for the big generated documents, otherwise
+/// `doc<key/form/dir/literal,...>:<text>` (the annotation lists the threshold values the generator
+/// wrote into the text, i.e. the input side of the oracle).
+fn trace_of(d: &Doc) -> String {
+    if d.slot.starts_with("gen:") {
+        return d.slot.clone();
+    }
+    let ann: Vec<String> = d.thr.iter().map(|t| format!("{}/{}/{}/{}", t.key, t.form, t.dir, t.lit)).collect();
+    format!("doc<{}>:{}", ann.join(","), d.text)
+}
+
+fn nonneg(c: Option<NtpDuration>) -> bool {
+    c.is_none_or(|v| v >= NtpDuration::ZERO)
+}
+
+fn fmt_thr(t: &ntp_proto::StepThreshold) -> String {
+    let f = |c: Option<NtpDuration>| c.map_or("inf".to_string(), |v| format!("{:?}s", v.to_seconds()));
+    format!("{{forward={}, backward={}}}", f(t.forward), f(t.backward))
+}
+
+/// Load one document the way the daemon does; report violations; return the observation.
+fn eval(ctx: &Ctx, d: &Doc, obs: &Mutex<Observations>) -> String {
+    let trace = trace_of(d);
+    let loaded = common::catch(|| toml::from_str::<Config>(&d.text));
+    let cfg = match loaded {
+        Err(p) => {
+            ctx.violation("C39:load-panic", format!("loading the document panicked: {p}"), trace);
+            return format!("panic:{p}");
+        }
+        Ok(Err(e)) => {
+            ctx.inc("rejected");
+            ctx.inc(&format!("rejected_{}", d.family));
+            if d.family == "F5" {
+                obs.lock().unwrap().good_rejected.push(format!("{}: {e}", d.slot));
+            }
+            let msg = e.message().to_string();
+            return format!("rejected:{}", msg.lines().next().unwrap_or(""));
+        }
+        Ok(Ok(c)) => c,
+    };
+    ctx.inc("accepted");
+    ctx.inc(&format!("accepted_{}", d.family));
+    let check = match common::catch(|| cfg.check()) {
+        Ok(b) => b,
+        Err(p) => {
+            ctx.violation("C39:check-panic", format!("Config::check panicked: {p}"), trace.clone());
+            false
+        }
+    };
+    if check {
+        ctx.inc("accepted_and_check_ok");
+    }
+    let sync = &cfg.synchronization.synchronization_base;
+    let single = sync.single_step_panic_threshold;
+    let startup = sync.startup_step_panic_threshold;
+    // statement, input side: NaN / negative thresholds are never accepted
+    for t in &d.thr {
+        let kind = match t.class {
+            Nan => "nan",
+            Neg => "negative",
+            Other => continue,
+        };
+        let got = if t.key == THRESHOLD_KEYS[0] { single } else { startup };
+        ctx.violation(
+            &format!("C39:{}-{kind}-accepted", t.form),
+            format!("{} {} ({} form) = {} was accepted as {}", t.key, t.dir, t.form, t.lit, fmt_thr(&got)),
+            trace.clone(),
+        );
+    }
+    // statement, output side: every accepted component is None or >= 0
+    for (name, t) in [(THRESHOLD_KEYS[0], single), (THRESHOLD_KEYS[1], startup)] {
+        if !(nonneg(t.forward) && nonneg(t.backward)) && d.thr.iter().all(|i| i.class == Other) {
+            ctx.violation(
+                "C39:negative-threshold-in-config",
+                format!("accepted configuration has {name} = {}", fmt_thr(&t)),
+                trace.clone(),
+            );
+        }
+    }
+    // observations (not part of the statement)
+    {
+        let mut o = obs.lock().unwrap();
+        if d.slot.starts_with("unknown") {
+            o.unknown_accepted.push(d.slot.clone());
+        }
+        if let Some(a) = sync.accumulated_step_panic_threshold {
+            if a < NtpDuration::ZERO {
+                let v = format!("{:?}s", a.to_seconds());
+                if !o.acc_threshold.contains(&v) {
+                    o.acc_threshold.push(v);
+                    o.acc_threshold.sort();
+                }
+            }
+        }
+    }
+    format!(
+        "accepted check={check} single={} startup={} acc={:?} sources={} servers={}",
+        fmt_thr(&single),
+        fmt_thr(&startup),
+        sync.accumulated_step_panic_threshold.map(|a| a.to_seconds()),
+        cfg.sources.len(),
+        cfg.servers.len()
+    )
+}
+
+fn scratch_dir() -> std::path::PathBuf {
+    std::env::temp_dir().join(format!("verif-c39-{}", std::process::id()))
+}
+
+/// The threshold family once more through the real file loader (`Config::from_args`).
+fn eval_via_file(ctx: &Ctx, d: &Doc, idx: u64, direct_accepts: bool) {
+    let dir = scratch_dir();
+    let path = dir.join(format!("doc-{idx}.toml"));
+    if std::fs::write(&path, &d.text).is_err() {
+        ctx.inc("file_write_errors");
+        return;
+    }
+    let r = common::catch(|| Config::from_args(Some(&path), vec![], vec![]).map(|c| c.check()));
+    std::fs::remove_file(&path).ok();
+    ctx.inc("file_loader_cases");
+    ctx.add("transitions", 1);
+    match r {
+        Err(p) => ctx.violation("C39:load-panic", format!("Config::from_args panicked: {p}"), trace_of(d)),
+        Ok(res) => {
+            if res.is_ok() != direct_accepts {
+                ctx.violation(
+                    "C39:loader-divergence",
+                    format!("Config::from_args accepts={} but toml::from_str::<Config> accepts={direct_accepts}", res.is_ok()),
+                    trace_of(d),
+                );
+            }
+        }
+    }
+}
+
+fn doc_of_trace(trace: &str) -> Option<Doc> {
+    if let Some(rest) = trace.strip_prefix("doc<") {
+        let (ann, text) = rest.split_once(">:")?;
+        let mut thr = Vec::new();
+        for a in ann.split(',').filter(|a| !a.is_empty()) {
+            let p: Vec<&str> = a.split('/').collect();
+            let [key, form, dir, lit] = p.as_slice() else { return None };
+            let key = *THRESHOLD_KEYS.iter().find(|k| *k == key)?;
+            let form = *["single", "per-direction"].iter().find(|k| *k == form)?;
+            let dir = *["both", "forward", "backward"].iter().find(|k| *k == dir)?;
+            let (lit, class) = *VALUES.iter().find(|(l, _)| l == lit)?;
+            thr.push(ThrInput { key, form, dir, class, lit });
+        }
+        return Some(Doc { family: "replay", slot: "replay".into(), text: text.to_string(), thr, val: None });
+    }
+    let p: Vec<&str> = trace.split(':').collect();
+    match p.as_slice() {
+        ["gen", "deep", kind, d] if DEEP_KINDS.contains(kind) => Some(Doc {
+            family: "replay",
+            slot: trace.to_string(),
+            text: deep(kind, d.parse().ok()?),
+            thr: vec![],
+            val: None,
+        }),
+        _ => None,
+    }
+}
+
+fn replay(ctx: &Ctx, trace: &str) -> String {
+    let Some(d) = doc_of_trace(trace) else {
+        return format!("unparseable trace {trace:?}");
+    };
+    let obs = Mutex::new(Observations::default());
+    eval(ctx, &d, &obs)
+}
+
+#[test]
+fn check() {
+    let ctx = Ctx::new("C39");
+    if let Some(t) = common::replay_trace() {
+        let a = replay(&ctx, &t);
+        let b = replay(&ctx, &t);
+        common::report_replay("C39", &a, &b, ctx.violation_count() > 0);
+        return;
+    }
+    ctx.rule(&format!(
+        "F1: every key of the configuration tree (all numeric keys + string/bool/table keys, {} slots) x {} TOML literals; \
+         F2: both step thresholds x {{single value, {{forward}}, {{backward}}, [table] form, dotted form}} x 37 literals and \
+         {{forward, backward}} x 37^2; F3: an unknown key in every section / inline table, duplicate keys / sections / forms; \
+         F4: 10 source modes x every subset of <= 3 (quick) / <= 5 (thorough) of the 17 source fields, 22 address texts x 5 modes, \
+         6 certificate paths x 2 modes; F5: 12 manual-conforming documents; F6: structural confusions and nesting depth up to \
+         10^4 (quick) / 10^5 (thorough) in 6 shapes. Distinct & non-trivial = a distinct document text that is syntactically \
+         valid TOML reaching the Config deserializer (either verdict).",
+        slots().len(),
+        VALUES.len()
+    ));
+    ctx.assume("loading = toml::from_str::<Config> (the body of the private Config::from_file) followed by Config::check; the threshold family F2 is additionally loaded from a real file through Config::from_args and must give the same verdict");
+    ctx.assume("a step threshold is 'NaN' / 'negative' when the TOML literal written for it is a NaN / a number < 0 (incl. -inf); -0.0 and -0 count as zero");
+    ctx.assume("release profile as shipped (overflow-checks and debug-assertions off)");
+    let thorough = !ctx.quick();
+    let mut docs = Vec::new();
+    docs.extend(f5_docs());
+    docs.extend(f2_docs());
+    docs.extend(f1_docs());
+    docs.extend(f3_docs());
+    docs.extend(f4_docs(if thorough { 5 } else { 3 }));
+    let f6 = f6_docs(thorough);
+    std::fs::create_dir_all(scratch_dir()).ok();
+    let obs = Mutex::new(Observations::default());
+    let nan_neg: Mutex<(BTreeMap<String, Vec<String>>, BTreeMap<String, Vec<String>>)> = Mutex::new(Default::default());
+    let run = |docs: &Vec<Doc>, base: u64| {
+        common::par_for(docs.len() as u64, 64, |i| {
+            let d = &docs[i as usize];
+            let o = eval(&ctx, d, &obs);
+            ctx.inc("evaluations");
+            ctx.inc(&format!("docs_{}", d.family));
+            ctx.add("transitions", 1);
+            let accepted = o.starts_with("accepted");
+            if !o.starts_with("rejected:TOML parse error") && !is_syntax_error(&d.text) {
+                ctx.distinct(common::hash_of(&d.text));
+            }
+            if d.family == "F2" {
+                eval_via_file(&ctx, d, base + i, accepted);
+            }
+            if d.family == "F1" && accepted {
+                // observation: which keys take NaN / negative values
+                let (lit, class) = d.val.expect("F1 docs carry their literal");
+                let mut g = nan_neg.lock().unwrap();
+                match class {
+                    Nan => g.0.entry(d.slot.clone()).or_default().push(lit.to_string()),
+                    Neg => g.1.entry(d.slot.clone()).or_default().push(lit.to_string()),
+                    Other => {}
+                }
+            }
+        });
+    };
+    // canonical minimal documents first, sequentially, so the kept traces are stable
+    for (text, key, form, dir, lit) in [
+        ("[synchronization]\nsingle-step-panic-threshold = { forward = -5 }\n", THRESHOLD_KEYS[0], "per-direction", "forward", "-5"),
+        ("[synchronization]\nsingle-step-panic-threshold = { forward = nan }\n", THRESHOLD_KEYS[0], "per-direction", "forward", "nan"),
+        ("[synchronization]\nstartup-step-panic-threshold = { backward = -inf }\n", THRESHOLD_KEYS[1], "per-direction", "backward", "-inf"),
+        ("[synchronization]\nstartup-step-panic-threshold = { forward = -1.5 }\n", THRESHOLD_KEYS[1], "per-direction", "forward", "-1.5"),
+        ("[synchronization]\nstartup-step-panic-threshold = { backward = nan }\n", THRESHOLD_KEYS[1], "per-direction", "backward", "nan"),
+        ("[synchronization]\nsingle-step-panic-threshold = { backward = -nan }\n", THRESHOLD_KEYS[0], "per-direction", "backward", "-nan"),
+        ("[synchronization]\nsingle-step-panic-threshold = -5\n", THRESHOLD_KEYS[0], "single", "both", "-5"),
+        ("[synchronization]\nsingle-step-panic-threshold = nan\n", THRESHOLD_KEYS[0], "single", "both", "nan"),
+    ] {
+        let class = VALUES.iter().find(|(l, _)| *l == lit).unwrap().1;
+        let d = Doc {
+            family: "F2",
+            slot: "canonical".into(),
+            text: text.to_string(),
+            thr: vec![ThrInput { key, form, dir, class, lit }],
+            val: None,
+        };
+        let o = eval(&ctx, &d, &obs);
+        ctx.inc("evaluations");
+        ctx.inc("docs_F2");
+        ctx.add("transitions", 1);
+        ctx.sample(format!("{} -> {o}", text.replace('\n', " | ")));
+    }
+    for lit in ["-5", "nan"] {
+        // observation only (plain duration, not a step threshold of the statement)
+        let d = Doc {
+            family: "F1",
+            slot: "observation".into(),
+            text: format!("{BASE}[synchronization]\naccumulated-step-panic-threshold = {lit}\n"),
+            thr: vec![],
+            val: None,
+        };
+        let o = eval(&ctx, &d, &obs);
+        ctx.inc("evaluations");
+        ctx.inc("docs_F1");
+        ctx.add("transitions", 1);
+        ctx.sample(format!("observation (not raised): accumulated-step-panic-threshold = {lit} -> {o}"));
+    }
+    run(&docs, 0);
+    // deep nesting last, on a thread with the daemon's default main-thread stack (8 MiB)
+    eprintln!("verif C39: entering deep-nesting documents (a stack overflow here would kill the process)");
+    std::thread::scope(|s| {
+        std::thread::Builder::new()
+            .stack_size(8 << 20)
+            .spawn_scoped(s, || {
+                for d in &f6 {
+                    let o = eval(&ctx, d, &obs);
+                    ctx.inc("evaluations");
+                    ctx.inc("docs_F6");
+                    ctx.add("transitions", 1);
+                    ctx.distinct(common::hash_of(&d.text));
+                    if d.slot.starts_with("gen:deep") && (d.slot.ends_with(":128") || d.slot.ends_with(":10000")) {
+                        ctx.sample(format!("{} -> {}", d.slot, o.chars().take(100).collect::<String>()));
+                    }
+                }
+            })
+            .expect("spawn")
+            .join()
+            .ok();
+    });
+    std::fs::remove_dir_all(scratch_dir()).ok();
+    let o = obs.into_inner().unwrap();
+    let g = nan_neg.into_inner().unwrap();
+    let fmt_map = |m: &BTreeMap<String, Vec<String>>| {
+        m.iter()
+            .map(|(k, v)| {
+                let mut v = v.clone();
+                v.sort();
+                format!("{k}({})", v.join(" "))
+            })
+            .collect::<Vec<_>>()
+            .join("; ")
+    };
+    ctx.note("observation_keys_accepting_nan", &fmt_map(&g.0));
+    ctx.note("observation_keys_accepting_negative", &fmt_map(&g.1));
+    ctx.set("observation_keys_accepting_nan_count", g.0.len() as u64);
+    ctx.set("observation_keys_accepting_negative_count", g.1.len() as u64);
+    let mut ua = o.unknown_accepted.clone();
+    ua.sort();
+    ctx.note("observation_unknown_key_accepted_in", &ua.join("; "));
+    ctx.note(
+        "observation_accumulated_step_panic_threshold",
+        &format!(
+            "plain duration, not one of the two threshold forms of the statement; negative values are accepted (NaN/inf rejected), accepted negative values seen: {}",
+            o.acc_threshold.join(", ")
+        ),
+    );
+    ctx.set("good_docs_rejected", o.good_rejected.len() as u64);
+    if !o.good_rejected.is_empty() {
+        ctx.note("good_docs_rejected", &o.good_rejected.join(" || "));
+    }
+    ctx.set("states", ctx.get("evaluations"));
+    ctx.exhaustive(true);
+    ctx.finish();
+}
+
+/// Independent syntax check: does the text parse as *some* TOML document at all?
+fn is_syntax_error(text: &str) -> bool {
+    text.parse::<toml::Table>().is_err()
+}
